@@ -1,6 +1,7 @@
 """C16: does the fourth-rank Bohm route (StrainEnergy.compute for ellipsoids) reduce to the homogeneous-inclusion energy when precipitate and matrix stiffness
 coincide, for a matrix rotation that is not a cubic symmetry operation?  Native run on the unmodified tree (run from /repo)."""
-import sys, warnings
+import os, sys, warnings
+sys.path.insert(0, os.getcwd())
 warnings.filterwarnings('ignore')
 import numpy as np
 from kawin.precipitation import StrainEnergy
